@@ -57,6 +57,7 @@ static std::string demangle(const char* n)
 
 static std::string props_dump(Document& doc, TigaPropertyBuilder& b)
 {
+    TraversalScope traversal_scope;
     std::ostringstream os;
     DumpOpts o;
     for (auto& p : b.getProperties()) {
